@@ -3,6 +3,7 @@ import KrakenModel.Model.BlobStore
 import KrakenModel.Proof.BlobStore
 import KrakenModel.Proof.C07
 import KrakenModel.Proof.C07Md
+import KrakenModel.Proof.C07Clean
 /-
   C07  The disk blob store behaves like its capacity-bounded LRU model.
 
@@ -216,6 +217,22 @@ theorem clean_respects_ban (cap : Nat) (hcap : cap < U64) (ops : List Op) (pct :
     let s := (sys cap).run ops
     s.blobs.get k = some b → b.banned = true → (step s (.clean pct true ord)).blobs.get k = some b :=
   fun hb hban => clean_keeps_banned (good_run hcap ops) pct ord hb hban
+
+/-- **(8') `Clean` reaches its target.** After every history, for a percentage in [0,100) and every
+iteration order of the Go map that lists each key once: `Clean` reports no error and afterwards the
+reserved size is at most `capacity·pct/100` — or, with `respectEvictionBan`, everything that is left is
+banned from eviction. -/
+theorem clean_reaches_target (cap : Nat) (hcap : cap < U64) (ops : List Op) (pct : Int)
+    (hp : ¬ (pct < 0 ∨ pct ≥ 100)) (respect : Bool) (ord : List Key) (hnd : ord.Nodup)
+    (hall : ∀ k, (∃ b, ((sys cap).run ops).blobs.get k = some b) → k ∈ ord) :
+    let s := (sys cap).run ops
+    let s' := step s (.clean pct respect ord)
+    (∃ u d, output s (.clean pct respect ord) = .cleaned u none d) ∧
+    (s'.size ≤ (cap * pct.toNat % U64) / 100 ∨
+      (respect = true ∧ ∀ k b, s'.blobs.get k = some b → b.banned = true)) := by
+  have h := BlobStore.clean_reaches_target (good_run hcap ops) pct hp respect ord hnd hall
+  rw [run_cap] at h
+  exact h
 
 /-- **(9) no panics.** After every history no operation reaches a nil map entry or list node. -/
 theorem no_panic (cap : Nat) (hcap : cap < U64) (ops : List Op) (o : Op) :
